@@ -144,6 +144,12 @@ def map_arrays(arrays=None, func=np.asarray, *, xp=np, **kwargs):
 
     def _apply(value):
         if isscalar(value):
+            # low-precision numpy scalars / 0-d arrays: compute in double precision too
+            kind, size = getattr(getattr(value, "dtype", None), "kind", ""), getattr(value, "itemsize", 0)
+            if kind == "f" and size < 8:
+                return np.float64(value)
+            if kind == "c" and size < 16:
+                return np.complex128(value)
             return value
         arr = func(value)
         kind, size = getattr(getattr(arr, "dtype", None), "kind", ""), getattr(arr, "itemsize", 0)
